@@ -81,7 +81,9 @@ def strategy(tier):
         {
             "prune": st.booleans(),
             "use_cache": st.booleans(),
-            "items": item_lists(tier, 2, 24 if big else 14, keys=keys),
+            # now and then the walk starts on an empty or one-key trie
+            "items": st.one_of(*([item_lists(tier, 2, 24 if big else 14, keys=keys)] * 14
+                                 + [item_lists(tier, 0, 1, keys=keys)])),
             "schedule": st.one_of(dynamic, dynamic, dynamic, dynamic, dynamic,
                                   st.lists(static_step, max_size=6)),
         }
@@ -98,6 +100,7 @@ def run_case(case):
     use_cache = bool(case["use_cache"])
     info.label("prune" if prune else "no-prune")
     info.label("cache" if use_cache else "no-cache")
+    info.label("starts-empty", not case["items"])
     t = impl("construct", HexaryTrie, {}, prune=prune)
     model = {}
     ever = set()
